@@ -262,6 +262,27 @@ def matrix_digits(ctx, rep):
                     why = "element written with %s" % show(val, maxdepth=3)
             else:
                 why = "%d stores to the element per iteration" % len(writes)
+    if len(loops) == 1 and not good:
+        # for (b, digit) in buf.iter_mut().zip(die.sample_iter(thread_rng())) { *b = digit }: `zip`
+        # asks the slice first and stops when it is exhausted, so exactly one sample is drawn per
+        # element; every sample of the stream is a fresh draw of the die from the generator
+        lp = loops[0]
+        ini = strip(lp["init"] or ("x",))
+        if util.is_call(ini, "std::iter::Iterator::zip") and "Zip<" in (lp["resolved"] or ""):
+            a_, b_ = strip(ini[2][0]), strip(ini[2][1])
+            whole = False
+            if util.is_call(a_, "core::slice::<impl [T]>::iter_mut"):
+                la = (se.term_info.get(a_[3][1], {}).get("locargs") or (("?",),))[0]
+                whole = la == ("ref", ("deref", ("param", 1)), True)
+            stream = util.is_call(b_, "rand::distributions::Distribution::sample_iter") and len(b_[2]) == 2
+            die_ok = stream and _is_die(b_[2][0])
+            rng_ok = stream and (util.is_call(strip(b_[2][1]), "rand::thread_rng") or util.is_call(strip(b_[2][1]), "rand::rngs::OsRng"))
+            elem = strip(lp["elem"])
+            writes = [(k, v) for k, v in se.assigns.items() if v[0][0] == "deref"]
+            one = len(writes) == 1 and strip(writes[0][1][0][1]) == ("field", elem, 0) and strip(writes[0][1][1]) == ("field", elem, 1)
+            every = one and (cfg.must_pass_block(body, writes[0][0][0], lp["next_bb"]) or all(cfg.dominates(cfg.dominators(body), writes[0][0][0], t) for (t, h) in cfg.back_edges(body)))
+            good = whole and die_ok and rng_ok and one and every
+            why = "every element := the next sample of Uniform(0..=9).sample_iter(thread_rng) (zip: one draw per element)" if good else "whole slice: %s; die 0..=9: %s; thread rng: %s; the one store is the sample: %s; on every iteration: %s" % (whole, die_ok, rng_ok, one, every)
     if not loops:
         # buf.fill_with(|| die.sample(&mut rng)): the closure is called once per element, in order
         fw = [i for i in se.term_info.values() if i.get("k") == "call" and i["name"] == "core::slice::<impl [T]>::fill_with"]
